@@ -209,13 +209,17 @@ class Simple(P):
     redirs: List[Redir] = field(default_factory=list)
     kind = "simple"
     label: str = ""  # verdict class the generator intended for the command proper
+    # array-element assignments `name[SUBSCRIPT]=value`: (name, subscript word, value word); the subscript is arithmetic for
+    # bash - a substitution in it runs even inside single quotes
+    elem_assigns: List[Tuple[str, W, W]] = field(default_factory=list)
 
     def render(self) -> str:
-        parts = [n + "=" + w.render() for n, w in self.assigns] + [w.render() for w in self.argv]
+        parts = [n + "[" + sub.render() + "]=" + w.render() for n, sub, w in self.elem_assigns]
+        parts += [n + "=" + w.render() for n, w in self.assigns] + [w.render() for w in self.argv]
         return " ".join(parts) + self.render_redirs() if parts else self.render_redirs().lstrip()
 
     def words(self):
-        return [w for _, w in self.assigns] + list(self.argv)
+        return [x for _, sub, w in self.elem_assigns for x in (sub, w)] + [w for _, w in self.assigns] + list(self.argv)
 
     def alone(self) -> "Simple":
         return self
@@ -678,6 +682,14 @@ class Gen:
 
     def simple(self, depth, *, plain=False) -> Simple:
         r = self.r
+        if not plain and self.exotic and depth < self.max_depth and r.chance(0.04):
+            # `a[SUB]=v` on its own, or as an argument of declare/local: SUB bare, or wrapped in quote characters
+            sub = self.seg_sub_nq(depth)
+            q = r.pick(["", "'", '"'])
+            subw = W([Seg("lit", q + r.pick(["", "i+"])), sub, Seg("lit", q)])
+            if r.chance(0.7):
+                return Simple([], [], [], label="allow", elem_assigns=[(r.pick(["a", "arr_1"]), subw, lit(r.pick(["1", "v"])))])
+            return Simple([], [lit(r.pick(["declare", "local", "export", "typeset"])), W([Seg("lit", "a[")] + subw.segs + [Seg("lit", "]=1")])], [], label="allow")
         argv, label = self.atom_argv()
         ws = [lit(a) for a in argv]
         assigns = []
